@@ -168,41 +168,30 @@ Qed.
 Definition b0 := mkB true [] [].
 Definition ncprop (v : val) := IProp (mkVP v false false false false None None).
 
-(* F4: sparse, non-configurable element at 10, length := 10 *)
+(* the former F4 state (sparse, non-configurable element at 10, length := 10): refines since fix a4a2aa5 *)
 Definition f4_state := mkSA [(10, ncprop 1); (5000, IPlain 1)] 5001 1 true b0.
-Lemma sparse_setlength_refuted :
-  absS (fst (sp_setLength f4_state 10)) <> fst (s_array_set_length (absS f4_state) 10).
-Proof. vm_compute. congruence. Qed.
+Lemma sparse_setlength_f4_example :
+  absS (fst (sp_setLength f4_state 10)) = fst (s_array_set_length (absS f4_state) 10) /\
+  snd (sp_setLength f4_state 10) = false /\ sa_length (fst (sp_setLength f4_state 10)) = 11.
+Proof. vm_compute. auto. Qed.
 
-(* with the comparison repaired the same state refines *)
-Lemma sparse_setlength_repaired_example :
-  absS (fst (sp_setLengthInt_gen true f4_state 10)) = fst (s_array_set_length (absS f4_state) 10).
-Proof. vm_compute. reflexivity. Qed.
-
-(* F5: redefining an element double-counts *)
 Definition f5_state := mkDA [Some (IPlain 1); Some (IPlain 2); Some (IPlain 3)] 3 3 0 true b0.
 Definition counters_ok (d : darr) : bool :=
   (da_objCount d =? count_present (da_values d))%Z && (da_pvc d =? count_vp (da_values d))%Z.
-Lemma counters_refuted :
-  counters_ok f5_state = true /\
-  match fst (d_defineIdx f5_state 0 (mkD (Some 5) (Some true) None None (Some true) (Some true))) with
-  | ID d => counters_ok d = false | _ => False end.
+
+(* N5: truncation never decrements objCount *)
+Lemma counters_truncate_refuted :
+  counters_ok f5_state = true /\ counters_ok (fst (d_setLength f5_state 2)) = false.
 Proof. vm_compute. auto. Qed.
 
-(* truncation never decrements objCount either *)
-Lemma counters_truncate_refuted :
-  counters_ok (fst (d_setLength f5_state 2)) = false.
-Proof. vm_compute. reflexivity. Qed.
-
-(* F3: the export fast path trusts the drifted counter *)
+(* ... so that the fast-path guard holds for an array with a hole, and Export() trusts it *)
 Definition f3_state :=
-  match fst (d_defineIdx f5_state 0 (mkD (Some 5) (Some true) None None (Some true) (Some true))) with
-  | ID d => let d' := fst (d_deleteIdx d 1) in
-            mkDA (da_values d') (da_length d') (da_objCount d') (da_pvc d') (da_lw d')
-                 (mkB true [] [(1, EData 55 true true true)])
+  match fst (d_setOwnIdx (fst (d_setLength f5_state 2)) 3 9) with
+  | ID d => mkDA (da_values d) (da_length d) (da_objCount d) (da_pvc d) (da_lw d)
+                 (mkB true [] [(2, EData 55 true true true)])
   | _ => f5_state end.
-Lemma export_refuted : d_export f3_state <> s_export (absD f3_state).
-Proof. vm_compute. congruence. Qed.
+Lemma export_refuted : d_guard f3_state = true /\ d_export f3_state <> s_export (absD f3_state).
+Proof. vm_compute. split; congruence. Qed.
 
 (* N6: the dense->sparse transition inside defineProperty loses the propValueCount increment *)
 Definition n6_state := mkDA [] 0 0 0 true b0.
